@@ -95,16 +95,22 @@ type c09State struct {
 
 func TestVerifC09Stress(t *testing.T) {
 	// two stable epochs (2 and 9) with the churn epochs in between: the oldest / newest epoch never change
-	c09Stress(t, "stress", []uint64{2, 9}, []uint64{4, 5, 6})
+	c09Stress(t, "stress", []uint64{2, 9}, []uint64{4, 5, 6}, 3)
 }
 
 // TestVerifC09StressSingle: ONE stable epoch; the churn epochs make the set flap between one and
 // several loaded epochs (the single-epoch fast paths are entered and left under the readers' feet).
 func TestVerifC09StressSingle(t *testing.T) {
-	c09Stress(t, "stress-single", []uint64{2}, []uint64{4, 5})
+	c09Stress(t, "stress-single", []uint64{2}, []uint64{4, 5}, 3)
 }
 
-func c09Stress(t *testing.T, part string, stableNums, churnNums []uint64) {
+// TestVerifC09StressNarrow: many more loaded epochs (up to 7) than the epoch search may run at once (1):
+// the search has to queue its per-epoch jobs and still complete.
+func TestVerifC09StressNarrow(t *testing.T) {
+	c09Stress(t, "stress-narrow", []uint64{2, 9}, []uint64{3, 4, 5, 6, 7}, 1)
+}
+
+func c09Stress(t *testing.T, part string, stableNums, churnNums []uint64, searchConc int) {
 	rec := ev.New("C09", part)
 	defer rec.Flush()
 	// is the newest / oldest loaded epoch always a stable one?
@@ -144,7 +150,7 @@ func c09Stress(t *testing.T, part string, stableNums, churnNums []uint64) {
 		}
 	}
 	cache := vfNewCache()
-	multi := NewMultiEpoch(&Options{EpochSearchConcurrency: 3})
+	multi := NewMultiEpoch(&Options{EpochSearchConcurrency: searchConc})
 	for _, fx := range fxs {
 		ep, err := fx.vfLoad(cache)
 		if err != nil {
@@ -205,6 +211,9 @@ func c09Stress(t *testing.T, part string, stableNums, churnNums []uint64) {
 	totalOps := int64(ev.Pick(120_000, 3_000_000))
 	if os.Getenv("VERIF_RACE") != "" {
 		totalOps /= 6
+	}
+	if part == "stress-narrow" {
+		totalOps /= 3
 	}
 	nReaders, nWriters := 12, 3
 	var ops atomic.Int64
@@ -367,33 +376,63 @@ loop:
 		}
 		last = cur
 		if frozen >= 12 {
-			buf := make([]byte, 8<<20)
-			buf = buf[:runtime.Stack(buf, true)]
-			parked, other := 0, 0
-			var sample string
-			for _, gtxt := range strings.Split(string(buf), "\n\n") {
-				relevant := strings.Contains(gtxt, "c09Stress.func") || strings.Contains(gtxt, "yellowstone-faithful.(*MultiEpoch)") || strings.Contains(gtxt, "yellowstone-faithful.FirstSuccess")
-				if !relevant || strings.Contains(gtxt, "runtime.Stack(") {
-					continue
-				}
-				hdr := gtxt
-				if k := strings.Index(gtxt, "\n"); k > 0 {
-					hdr = gtxt[:k]
-				}
-				if strings.Contains(gtxt, "sync.(*RWMutex).RLock") || strings.Contains(gtxt, "sync.(*RWMutex).Lock") {
-					parked++
-					if sample == "" && strings.Contains(gtxt, "RLock") {
-						sample = gtxt
+			parked, other, blocked := 0, 0, 0
+			var sample, blockedSample, otherSample string
+			classify := func() {
+				parked, other, blocked = 0, 0, 0
+				buf := make([]byte, 8<<20)
+				buf = buf[:runtime.Stack(buf, true)]
+				for _, gtxt := range strings.Split(string(buf), "\n\n") {
+					relevant := strings.Contains(gtxt, "c09Stress.func") || strings.Contains(gtxt, "yellowstone-faithful.(*MultiEpoch)") || strings.Contains(gtxt, "yellowstone-faithful.FirstSuccess")
+					if !relevant || strings.Contains(gtxt, "runtime.Stack(") || strings.Contains(gtxt, "yellowstone-faithful.c09Stress(") {
+						// (the second: this monitor's own goroutine)
+						continue
 					}
-					continue
+					hdr := gtxt
+					if k := strings.Index(gtxt, "\n"); k > 0 {
+						hdr = gtxt[:k]
+					}
+					if strings.Contains(gtxt, "sync.(*RWMutex).RLock") || strings.Contains(gtxt, "sync.(*RWMutex).Lock") {
+						parked++
+						if sample == "" && strings.Contains(gtxt, "RLock") {
+							sample = gtxt
+						}
+						continue
+					}
+					// blocked on other goroutines (channel, wait group, semaphore, select) = not able to make progress by itself
+					if c09BlockedRe.MatchString(hdr) {
+						blocked++
+						if blockedSample == "" && strings.Contains(gtxt, "yellowstone-faithful.FirstSuccess") {
+							blockedSample = gtxt
+						}
+						continue
+					}
+					other++ // running, runnable, syscall, IO wait, sleep ...
+					otherSample = gtxt
 				}
-				// blocked on other goroutines (channel, wait group, semaphore, select) = not able to make progress by itself
-				if c09BlockedRe.MatchString(hdr) {
-					continue
-				}
-				other++ // running, runnable, syscall, IO wait, sleep ...
 			}
+			classify()
 			state.Ops = cur
+			if parked < 2 && other == 0 && blocked >= 2 {
+				// nobody waits for the epoch-set lock, yet every goroutine of the workload and of the requests it
+				// issued waits for another goroutine.  Look again after a further 5 s: same state and still no
+				// completed operation => no goroutine is left that could wake them.
+				time.Sleep(5 * time.Second)
+				b0 := blocked
+				classify()
+				if ops.Load() == cur && other == 0 && blocked == b0 && parked < 2 {
+					verdict = "blocked"
+					if blockedSample == "" {
+						blockedSample = "(no goroutine inside FirstSuccess)"
+					}
+					if len(blockedSample) > 2500 {
+						blockedSample = blockedSample[:2500]
+					}
+					rec.Violation("MultiEpoch/operations-never-complete", fmt.Sprintf("no operation completed over 32 samples after %d operations; all %d goroutines of the workload and of its requests wait on channels / wait groups / semaphores and none is runnable. One of them:\n%s", cur, blocked, blockedSample), state)
+					stop.Store(true)
+					break loop
+				}
+			}
 			if parked >= 2 && other == 0 {
 				verdict = "deadlock"
 				if len(sample) > 2500 {
@@ -402,7 +441,10 @@ loop:
 				rec.Violation("MultiEpoch/deadlock-on-epoch-set-lock", fmt.Sprintf("no operation completed over 12 samples after %d operations; %d worker goroutines are parked in sync.RWMutex (R)Lock and none is runnable. One of them:\n%s", cur, parked, sample), state)
 			} else {
 				verdict = "stalled"
-				rec.Inconclusive(fmt.Sprintf("progress stalled after %d operations but %d workers are not parked on the epoch-set lock (%d are)", cur, other, parked))
+				if len(otherSample) > 1200 {
+					otherSample = otherSample[:1200]
+				}
+				rec.Inconclusive(fmt.Sprintf("progress stalled after %d operations but %d workers are not parked on the epoch-set lock (%d are, %d wait on other goroutines); one of the others: %s", cur, other, parked, blocked, otherSample))
 			}
 			stop.Store(true)
 			break loop
